@@ -235,3 +235,300 @@ def u_sparse_create(ctx):
             ok = (c == [0, 1] and vcol == 2 and fill == 0.0 and set(kw) == {"fill_value"})
         except Exception: ok = False
     ctx.check("call-argument obligation: LinearNDInterpolator(list(zip(column 0, column 1)), column 2, fill_value=0.0) — (x, y) points, z values, zero outside the data", z3.BoolVal(ok), None, None, "post")
+
+
+# ---------------------------------------------------------------------------------------------- sampling a line: _interpolate_line and sample_path
+depthf = z3.Function("depth_at", R, R, R)              # what get_depth_at(x, y) returns (its own contract: the get_depth_at units)
+xs = z3.Function("sample_x", z3.IntSort(), R)          # coordinates of the i-th sample produced by numpy.linspace / skimage.draw.line
+ys = z3.Function("sample_y", z3.IntSort(), R)
+
+
+def _line_unit(cls):
+    @unit(f"{cls}._interpolate_line", ["C19"])
+    def u(ctx):
+        st = State(T, {}, {}, []); x = ctx.executor()
+        m, sc, tol, w, h, calls = mk_map(st, cls, x)
+        ctx.assume(tol.val > 0)
+        cs = [sym_num(nm, finite=True)[0] for nm in ("x1", "y1", "x2", "y2")]
+        line = VTuple(list(cs))                          # an ndarray of shape (4,) of finite floats: unpacks and iterates like a 4-tuple
+        i = fresh("i", z3.IntSort())                     # ONE generic sample index: the code treats all samples alike (comprehension / vectorised call)
+        made = []                                        # calls that create the sample coordinates
+        depth_calls = []
+        def h_depth(x_, recv, args, kwargs, st_):
+            a, b = x_.as_num(st_, args[0]), x_.as_num(st_, args[1]); depth_calls.append((st_.pc, a, b))
+            return VNum(z3.IntVal(0), depthf(a.val, b.val), False)
+        x.contracts[(cls, "get_depth_at")] = h_depth
+        def samples(st_, axis, term): return st_.alloc("Samples1D", {"$axis": VStr(axis), "$g": VNum(z3.IntVal(0), term, False)})
+        def linspace(x_, args, kwargs, st_, n):
+            made.append(("linspace", [x_.as_num(st_, a, n) for a in args], dict(kwargs)))
+            return samples(st_, "xy"[len([c for c in made if c[0] == "linspace"]) - 1], (xs if len([c for c in made if c[0] == "linspace"]) == 1 else ys)(i))
+        def draw_line(x_, args, kwargs, st_, n):
+            made.append(("draw.line", [x_.as_num(st_, a, n) for a in args], dict(kwargs)))
+            return VTuple([samples(st_, "x", xs(i)), samples(st_, "y", ys(i))])
+        x.ext["numpy.linspace"] = linspace; x.ext["draw.line"] = draw_line
+        x.ext["numpy.hypot"] = ext_hypot
+        x.ext_names["numpy"] = VModule("numpy"); x.ext_names["draw"] = VModule("draw")
+        def np_array(x_, args, kwargs, st_, n): return args[0]
+        x.ext["numpy.array"] = np_array
+        def column_stack(x_, args, kwargs, st_, n):
+            cols = x_.unpack(args[0], st_, n)
+            if not all(isinstance(c, VRef) and c.cls == "Samples1D" for c in cols): raise Unsupported("column_stack of something else than sample arrays")
+            return st_.alloc("list", {"$l": VList([VTuple([st_.heap[c.oid]["$g"] for c in cols])])})
+        x.ext["numpy.column_stack"] = column_stack
+        # the interpolator object applied to whole sample arrays works element by element (scipy: vectorised call)
+        base_ip = x.contracts[("Interpolator", "__call__")]
+        def ip_call(x_, recv, args, kwargs, st_):
+            if all(isinstance(a, VRef) and a.cls == "Samples1D" for a in args):
+                a, b = [st_.heap[q.oid]["$g"] for q in args]
+                return samples(st_, "z", interp(a.val, b.val))
+            return base_ip(x_, recv, args, kwargs, st_)
+        x.contracts[("Interpolator", "__call__")] = ip_call
+        orig_iter = x.iter_builtin
+        def iter_builtin(name, args, st_, n):
+            if name == "zip" and args and all(isinstance(a, VRef) and a.cls == "Samples1D" for a in args):
+                return VList([VTuple([st_.heap[a.oid]["$g"] for a in args])])       # the generic element of the zipped sequence
+            return orig_iter(name, args, st_, n)
+        x.iter_builtin = iter_builtin
+        exits = ctx.run(x, f"{cls}._interpolate_line", [m, line], {}, st)
+        covers(ctx, exits); never_raises(ctx, exits)
+        x1, y1, x2, y2 = [c.val for c in cs]
+        for e in exits:
+            if e.kind != "return": continue
+            r = e.payload
+            rows = e.heap[r.oid]["$l"].items if isinstance(r, VRef) and "$l" in e.heap.get(r.oid, {}) else None
+            ok = rows is not None and len(rows) == 1 and isinstance(rows[0], VTuple) and len(rows[0].items) == 3
+            ctx.check("the result is one (x, y, z) row per sample", z3.BoolVal(bool(ok)), e, None, "post")
+            if not ok: continue
+            rx, ry, rz = [x.as_num(State(e.cond, {}, e.heap, []), c) for c in rows[0].items]
+            ctx.check("C19 every row is (x_i, y_i, get_depth_at(x_i, y_i)): the sample's own coordinates with the map's own (scaled, zero-outside) depth at them",
+                      AND(rx.val == xs(i), ry.val == ys(i), rz.val == depthf(xs(i), ys(i))), e, None, "post")
+            ctx.canary("canary: heights come straight from the interpolator", rz.val == interp(xs(i), ys(i)), e)
+        if cls == "SparseHeightMap":
+            ls = [c for c in made if c[0] == "linspace"]
+            ok = len(ls) == 2 and all(len(c[1]) == 3 and not c[2] for c in ls)
+            ctx.check("call-argument obligation: exactly two numpy.linspace(start, stop, count) calls and no other sample source", z3.BoolVal(ok and len(made) == 2), None, None, "post")
+            if ok:
+                (ax, bx, nx), (ay, by, ny) = ls[0][1], ls[1][1]
+                k = nx.val - 1
+                ctx.check("C19 samples run from (x1, y1) to (x2, y2), both ends included: linspace(x1, x2, k+1) and linspace(y1, y2, k+1) with the same k >= 1",
+                          AND(ax.val == x1, bx.val == x2, ay.val == y1, by.val == y2, nx.val == ny.val, k >= 1, z3.IsInt(k)), None, None, "post")
+            ctx.trust("numpy.linspace(a, b, n): n evenly spaced samples, first == a and last == b (assumed; exercised by the bounded stand-in)")
+        else:
+            ok = len(made) == 1 and made[0][0] == "draw.line" and len(made[0][1]) == 4 and not made[0][2]
+            ctx.check("call-argument obligation: exactly one skimage.draw.line(r0, c0, r1, c1) call and no other sample source", z3.BoolVal(ok), None, None, "post")
+            if ok:
+                a = made[0][1]
+                def rounded(v, c): return AND(z3.IsInt(v.val), v.val - c <= z3.RealVal("1/2"), c - v.val <= z3.RealVal("1/2"))
+                ctx.check("C19 the pixel line runs from round(x1, y1) to round(x2, y2), in that argument order", AND(rounded(a[0], x1), rounded(a[1], y1), rounded(a[2], x2), rounded(a[3], y2)), None, None, "post")
+            ctx.trust("skimage.draw.line(r0, c0, r1, c1): the pixels of the discrete line from (r0, c0) to (r1, c1), both ends included, in order (assumed; exercised by the bounded stand-in)")
+    return u
+
+
+_line_unit("RasterHeightMap"); _line_unit("SparseHeightMap")
+
+
+def _sample_path_unit(cls):
+    @unit(f"{cls}.sample_path", ["C19"])
+    def u(ctx):
+        st = State(T, {}, {}, []); x = ctx.executor()
+        m, sc, tol, w, h, calls = mk_map(st, cls, x)
+        arr = st.alloc("LineArray", {})
+        log = []
+        x.ext_names["numpy"] = VModule("numpy")
+        def asarray(x_, args, kwargs, st_, n):
+            log.append(("asarray", args[0], dict(kwargs)))
+            x_.raise_if(st_, fresh("not_numeric", z3.BoolSort()), "ValueError", n)      # numpy raises ValueError for values that are not numbers
+            return arr
+        x.ext["numpy.asarray"] = asarray
+        nshape = VNum(z3.IntVal(0), z3.ToReal(fresh("shape0", z3.IntSort())), True)
+        # the array's shape, as far as `shape != (4,)` can tell: one length (an array of another rank is any length other than 4)
+        x.contracts[("LineArray", "@shape")] = lambda x_, recv, a, k, st_: VTuple([nshape])
+        is4 = nshape.val == 4
+        pts = st.alloc("Samples", {}); out = st.alloc("Filtered", {})
+        def h_line(x_, recv, args, kwargs, st_): log.append(("interpolate", args[0])); return pts
+        def h_filter(x_, recv, args, kwargs, st_): log.append(("filter", args[0], args[1])); return out
+        x.contracts[(cls, "_interpolate_line")] = h_line; x.contracts[(cls, "_filter_points")] = h_filter
+        raw = st.alloc("UserLine", {})
+        exits = ctx.run(x, f"{cls}.sample_path", [m, raw], {}, st)
+        covers(ctx, exits)
+        for e in exits:
+            if e.kind == "raise":
+                ctx.check(f"only ValueError escapes @{e.where}", z3.BoolVal(e.payload == "ValueError"), e, None, "raises")
+            else:
+                ctx.check("a line that is not 4 numbers is rejected", is4, e, None, "post")
+                names = [c[0] for c in log]
+                ok = names == ["asarray", "interpolate", "filter"] and log[0][1] is raw or (names == ["asarray", "interpolate", "filter"] and isinstance(log[0][1], VRef) and log[0][1].oid == raw.oid)
+                ok = ok and isinstance(log[1][1], VRef) and log[1][1].oid == arr.oid and isinstance(log[2][1], VRef) and log[2][1].oid == pts.oid
+                ctx.check("sample_path == _filter_points(_interpolate_line(line), tolerance of the map): all samples of the line, filtered with the configured tolerance",
+                          AND(z3.BoolVal(bool(ok)), v_same(log[2][2], tol) if len(log) == 3 else F, z3.BoolVal(isinstance(e.payload, VRef) and e.payload.oid == out.oid)), e, None, "post")
+    return u
+
+
+_sample_path_unit("RasterHeightMap"); _sample_path_unit("SparseHeightMap")
+
+
+# ---------------------------------------------------------------------------------------------- FlatHeightMap: the "no data" map
+@unit("FlatHeightMap.get_depth_at", ["C19"])
+def u_flat_depth(ctx):
+    st = State(T, {}, {}, []); x = ctx.executor()
+    m = st.alloc("FlatHeightMap", {})
+    px, _ = sym_num("x", finite=True); py, _ = sym_num("y", finite=True)
+    exits = ctx.run(x, "FlatHeightMap.get_depth_at", [m, px, py], {}, st)
+    covers(ctx, exits); never_raises(ctx, exits)
+    for e in exits:
+        if e.kind == "return": ctx.check("a map without data is zero everywhere (zero outside the data)", AND(e.payload.finite, e.payload.val == 0), e, None, "post")
+
+
+@unit("FlatHeightMap.sample_path", ["C19"])
+def u_flat_path(ctx):
+    st = State(T, {}, {}, []); x = ctx.executor()
+    m = st.alloc("FlatHeightMap", {})
+    cs = [sym_num(nm, finite=True)[0] for nm in ("x1", "y1", "x2", "y2")]
+    arr = st.alloc("LineArray", {}); raw = st.alloc("UserLine", {})
+    nshape = VNum(z3.IntVal(0), z3.ToReal(fresh("shape0", z3.IntSort())), True)
+    x.contracts[("LineArray", "@shape")] = lambda x_, recv, a, k, st_: VTuple([nshape])
+    def arr_get(x_, recv, args, kwargs, st_):
+        i = x_.concrete(args[0])
+        if i not in (0, 1, 2, 3): raise Unsupported("line index")
+        x_.raise_if(st_, NOT(nshape.val > i), "IndexError")
+        return cs[i]
+    x.contracts[("LineArray", "__getitem__")] = arr_get
+    x.ext_names["numpy"] = VModule("numpy")
+    def asarray(x_, args, kwargs, st_, n):
+        x_.raise_if(st_, fresh("not_numeric", z3.BoolSort()), "ValueError", n); return arr
+    x.ext["numpy.asarray"] = asarray
+    x.ext["numpy.array"] = lambda x_, args, kwargs, st_, n: args[0]
+    exits = ctx.run(x, "FlatHeightMap.sample_path", [m, raw], {}, st)
+    covers(ctx, exits)
+    for e in exits:
+        if e.kind == "raise":
+            ctx.check(f"only ValueError escapes @{e.where}", z3.BoolVal(e.payload == "ValueError"), e, None, "raises"); continue
+        ctx.check("a line that is not 4 numbers is rejected", nshape.val == 4, e, None, "post")
+        rows = x.unpack(e.payload, State(e.cond, {}, e.heap, []), None)
+        ok = len(rows) == 2
+        vals = [[x.as_num(State(e.cond, {}, e.heap, []), c) for c in x.unpack(r, State(e.cond, {}, e.heap, []), None)] for r in rows] if ok else []
+        ok = ok and all(len(v) == 3 for v in vals)
+        ctx.check("the path of a flat map is its two ends at height zero: (x1, y1, 0), (x2, y2, 0)",
+                  AND(z3.BoolVal(bool(ok)), *([vals[0][0].val == cs[0].val, vals[0][1].val == cs[1].val, vals[0][2].val == 0,
+                                                vals[1][0].val == cs[2].val, vals[1][1].val == cs[3].val, vals[1][2].val == 0] if ok else [])), e, None, "post")
+
+
+# ---------------------------------------------------------------------------------------------- RasterHeightMap construction: what "the stored height" is
+@unit("RasterHeightMap.from_path", ["C19"])
+def u_raster_from_path(ctx):
+    import cv2
+    st = State(T, {}, {}, []); x = ctx.executor()
+    x.ext_names["cv"] = VModule("cv")
+    for nm in dir(cv2):
+        if nm.startswith("IMREAD_") and isinstance(getattr(cv2, nm), int): x.ext[f"cv.{nm}"] = num(int(getattr(cv2, nm)))     # the constants of the installed OpenCV
+    img = st.alloc("Image", {}); missing = fresh("unreadable", z3.BoolSort())
+    reads, made = [], []
+    def imread(x_, args, kwargs, st_, n):
+        reads.append((args, dict(kwargs))); return VOpt(missing, img)
+    x.ext["cv.imread"] = imread
+    orig_construct = x.construct
+    def construct(name, args, kwargs, st_, n=None):
+        if name == "RasterHeightMap": made.append((st_.pc, args, dict(kwargs))); return st_.alloc("RasterHeightMap", {"$image": (as_opt(args[0]).inner if isinstance(args[0], VOpt) else args[0]) if args else NONE})
+        return orig_construct(name, args, kwargs, st_, n)
+    x.construct = construct
+    path = VStr(None, fresh("path", z3.StringSort()))
+    exits = ctx.run(x, "RasterHeightMap.from_path", [VClass("RasterHeightMap"), path], {}, st)
+    covers(ctx, exits)
+    raises_iff(ctx, exits, {"ImageLoadError": missing})
+    ok = len(reads) == 1 and len(reads[0][0]) == 2 and not reads[0][1]
+    ctx.check("call-argument obligation: exactly one cv.imread(path, flags)", z3.BoolVal(ok), None, None, "post")
+    if ok:
+        a = reads[0][0]
+        fl = x.concrete(a[1])
+        ctx.check("C19 the image is read as ONE grey channel at its own bit depth: flags == IMREAD_GRAYSCALE | IMREAD_ANYDEPTH (without ANYDEPTH a 16-bit image is reduced to 8 bits before it is stored)",
+                  AND(z3.BoolVal(fl == (cv2.IMREAD_GRAYSCALE | cv2.IMREAD_ANYDEPTH)), a[0].z() == path.z()), None, None, "post")
+    for e in exits:
+        if e.kind != "return": continue
+        r = e.payload
+        ctx.check("the map is built from exactly the pixels that were read", z3.BoolVal(isinstance(r, VRef) and r.cls == "RasterHeightMap" and len(made) == 1 and len(made[0][1]) == 1
+                  and isinstance(e.heap[r.oid].get("$image"), VRef) and e.heap[r.oid]["$image"].oid == img.oid), e, None, "post")
+    ctx.trust("cv2.imread(path, IMREAD_GRAYSCALE | IMREAD_ANYDEPTH): the file's grey values as uint8 or uint16, None if unreadable (assumed; 8- and 16-bit files in the bounded stand-in)")
+
+
+@unit("RasterHeightMap._to_height_map", ["C19"])
+def u_raster_normalise(ctx):
+    st = State(T, {}, {}, []); x = ctx.executor()
+    m = st.alloc("RasterHeightMap", {})
+    is16 = fresh("dtype_is_uint16", z3.BoolSort())
+    img = st.alloc("Image", {})
+    x.contracts[("Image", "@shape")] = lambda x_, recv, a, k, st_: VOpaque("shape", fresh("shape", z3.IntSort()))
+    x.contracts[("Image", "@dtype")] = lambda x_, recv, a, k, st_: VOpaque("dtype", z3.If(is16, z3.IntVal(16), z3.IntVal(8)))
+    x.ext_names["uint16"] = VOpaque("dtype", z3.IntVal(16)); x.ext_names["float32"] = VOpaque("dtype", z3.IntVal(32))
+    x.ext_names["numpy"] = VModule("numpy")
+    calls = []
+    x.ext["numpy.empty"] = lambda x_, args, kwargs, st_, n: st_.alloc("OutArray", {})
+    def divide(x_, args, kwargs, st_, n):
+        calls.append((args, dict(kwargs))); return kwargs.get("out", st_.alloc("OutArray", {}))
+    x.ext["numpy.divide"] = divide
+    exits = ctx.run(x, "RasterHeightMap._to_height_map", [m, img], {}, st)
+    covers(ctx, exits); never_raises(ctx, exits)
+    ok = len(calls) == 1 and len(calls[0][0]) == 2 and isinstance(calls[0][0][0], VRef) and calls[0][0][0].oid == img.oid
+    ctx.check("call-argument obligation: exactly one numpy.divide(image, full_scale, ...) over the whole image", z3.BoolVal(ok), None, None, "post")
+    if ok:
+        d = x.as_num(State(T, {}, exits[-1].heap, []), calls[0][0][1])
+        ctx.check("C19 stored height = pixel / full scale of the pixel type: 65535 for 16-bit images, 255 otherwise (white is height 1.0 at either depth)",
+                  AND(d.finite, d.val == ITE(is16, z3.RealVal(65535), z3.RealVal(255))), None, None, "post")
+    for e in exits:
+        if e.kind == "return" and ok:
+            ctx.check("the normalised array is what is returned", z3.BoolVal(isinstance(e.payload, VRef) and (e.payload.cls == "OutArray")), e, None, "post")
+
+
+@unit("RasterHeightMap._create_interpolator", ["C19"])
+def u_raster_create(ctx):
+    st = State(T, {}, {}, []); x = ctx.executor()
+    m = st.alloc("RasterHeightMap", {})
+    w, _ = sym_num("width", isint=True, finite=True); h, _ = sym_num("height", isint=True, finite=True)
+    hm = st.alloc("HeightArray", {"$w": w, "$h": h})
+    x.contracts[("HeightArray", "@shape")] = lambda x_, recv, a, k, st_: VTuple([st_.heap[recv.oid]["$h"], st_.heap[recv.oid]["$w"]])      # numpy: (rows, columns)
+    x.ext_names["numpy"] = VModule("numpy")
+    x.ext["numpy.arange"] = lambda x_, args, kwargs, st_, n: st_.alloc("Arange", {"$n": x_.as_num(st_, args[0], n), "$extra": VBool(z3.BoolVal(len(args) != 1 or bool(kwargs)))})
+    made = []
+    def rbs(x_, args, kwargs, st_, n): made.append((args, dict(kwargs))); return st_.alloc("Interpolator", {})
+    x.ext_names["RectBivariateSpline"] = VFunc("RectBivariateSpline", rbs)
+    exits = ctx.run(x, "RasterHeightMap._create_interpolator", [m, hm], {}, st)
+    covers(ctx, exits); never_raises(ctx, exits)
+    ok = len(made) == 1 and len(made[0][0]) == 3 and not made[0][1] and all(isinstance(a, VRef) for a in made[0][0]) and made[0][0][0].cls == "Arange" and made[0][0][1].cls == "Arange"
+    ctx.check("call-argument obligation: exactly one RectBivariateSpline(row coordinates, column coordinates, heights), default (interpolating) smoothing", z3.BoolVal(bool(ok)), None, None, "post")
+    if ok:
+        hp = exits[-1].heap; a = made[0][0]
+        ctx.check("C19 pixel (row r, column c) sits at spline coordinates (r, c): rows 0..height-1 first, columns 0..width-1 second, over the map itself",
+                  AND(hp[a[0].oid]["$n"].val == h.val, hp[a[1].oid]["$n"].val == w.val, NOT(hp[a[0].oid]["$extra"].t), NOT(hp[a[1].oid]["$extra"].t), z3.BoolVal(a[2].oid == hm.oid)), None, None, "post")
+    ctx.trust("scipy RectBivariateSpline(x, y, z) with default s=0 interpolates z[i, j] exactly at (x[i], y[j]) (assumed; bounded check)")
+
+
+def _init_unit(cls):
+    @unit(f"{cls}.__init__", ["C19"])
+    def u(ctx):
+        st = State(T, {}, {}, []); x = ctx.executor()
+        m = st.alloc(cls, {})
+        data = st.alloc("InputData", {})
+        log = []
+        def h_norm(x_, recv, args, kwargs, st_): log.append(("normalise", args[0])); return st_.alloc("HeightArray", {"$from": args[0]})
+        def h_create(x_, recv, args, kwargs, st_): log.append(("create", args[0])); return st_.alloc("Interpolator", {"$from": args[0]})
+        x.contracts[(cls, "_to_height_map")] = h_norm; x.contracts[(cls, "_create_interpolator")] = h_create
+        exits = ctx.run(x, f"{cls}.__init__", [m, data], {}, st)
+        covers(ctx, exits); never_raises(ctx, exits)
+        for e in exits:
+            if e.kind != "return": continue
+            o = e.heap[m.oid]
+            sc = x.as_num(State(e.cond, {}, e.heap, []), o["_scale_z"]); tl = x.as_num(State(e.cond, {}, e.heap, []), o["_tolerance"])
+            ctx.check("a new map has scale 1 and a positive tolerance (the setters' invariants: scale > 0, tolerance >= 0)", AND(sc.finite, sc.val == 1, tl.finite, tl.val > 0), e, None, "post")
+            ip = o.get("_interpolator")
+            src = e.heap[ip.oid].get("$from") if isinstance(ip, VRef) and ip.cls == "Interpolator" else None
+            if cls == "RasterHeightMap":
+                hm = o.get("_height_map")
+                ok = (isinstance(src, VRef) and isinstance(hm, VRef) and src.oid == hm.oid and isinstance(e.heap[hm.oid].get("$from"), VRef) and e.heap[hm.oid]["$from"].oid == data.oid
+                      and [c[0] for c in log] == ["normalise", "create"])
+                ctx.check("the interpolator is built over the stored map, which is the normalised image given to the constructor", z3.BoolVal(bool(ok)), e, None, "post")
+            else:
+                ok = isinstance(src, VRef) and src.oid == data.oid and [c[0] for c in log] == ["create"]
+                ctx.check("the interpolator is built over exactly the points given to the constructor", z3.BoolVal(bool(ok)), e, None, "post")
+    return u
+
+
+_init_unit("RasterHeightMap"); _init_unit("SparseHeightMap")
